@@ -180,11 +180,15 @@ func newC06EvmWorld(t *testing.T) *c06EvmWorld {
 		t.Fatal(err)
 	}
 	ck.RegisterRelayers(ctx, c06Accts[0].lower, []string{"tss-a"}, []string{"0xfee"})
+	mw.lastReg[c06Accts[0].lower] = c06Reg{[]string{"tss-a"}, []string{"0xfee"}}
+	mw.tssCfg["tss-a"] = c06Accts[0].lower
 	T.App.SetEVMCode(ctx, c06ForwarderAddr, c06ForwarderCode)
 	T.App.SetEVMCode(ctx, c06SwallowAddr, c06SwallowCode)
 	T.App.SetEVMCode(ctx, c06WhoamiAddr, c06WhoamiCode)
+	w := &c06EvmWorld{t: t, mw: mw, app: T.App, self: T.ChainID}
+	w.installHelpers(ctx)
 	mw.coord.CommitBlock(T)
-	return &c06EvmWorld{t: t, mw: mw, app: T.App, self: T.ChainID}
+	return w
 }
 
 func (w *c06EvmWorld) classAddr(class string) (common.Address, bool) {
@@ -463,7 +467,7 @@ func (w *c06EvmWorld) runPath(ctx sdk.Context, path []string, to common.Address,
 	case "module":
 		return c06ModuleCall(w.app, ctx, common.BytesToAddress(unhx(path[1])), to, data), true
 	}
-	return c06CallRes{}, false
+	return w.runPath2(ctx, path, to, data)
 }
 
 func c06AcctByEth(h string) *c06Acct {
@@ -523,14 +527,23 @@ func c06HasPushConst(code []byte, a common.Address) bool {
 
 func (w *c06EvmWorld) apply(r *Rec, op string) string {
 	f := strings.Fields(op)
-	if f[0] == "addr" {
+	keep := f[0] == "addr" || f[0] == "evmrestart" || f[0] == "evmupgrade" // part of every later replay
+	if keep {
 		w.hist = append(w.hist, op)
 	}
 	defer func(n int) { w.hist = w.hist[:n] }(len(w.hist))
-	if f[0] != "addr" {
-		w.hist = append(w.hist, op) // replay of a finding = world + addresses + this cell
+	if !keep {
+		w.hist = append(w.hist, op) // replay of a finding = world + addresses (+ restart / upgrade) + this cell
 	}
 	switch f[0] {
+	case "emit":
+		return w.applyEmit(r, f)
+	case "spoof":
+		return w.applySpoof(r, f)
+	case "evmrestart":
+		return w.applyEvmRestart(r)
+	case "evmupgrade":
+		return w.applyEvmUpgrade(r)
 	case "addr":
 		a, ok := w.classAddr(f[1])
 		if !ok || hx(a.Bytes()) != f[2] {
@@ -658,9 +671,9 @@ func (w *c06EvmWorld) apply(r *Rec, op string) string {
 
 func (w *c06EvmWorld) effectiveCaller(path []string) common.Address {
 	switch path[0] {
-	case "eoa", "module":
+	case "eoa", "module", "delegatecall": // DELEGATECALL keeps the helper's own caller as msg.sender
 		return common.BytesToAddress(unhx(path[1]))
-	case "contract":
+	case "contract", "callcode", "staticcall", "ctor":
 		return common.BytesToAddress(unhx(path[2]))
 	}
 	return endpointcontract.ExecuteContractAddress // execute / packet: established by the whoami ops
